@@ -38,15 +38,18 @@ LowsSmall == {None, 1, -1}
 UpsSmall == {None, 1, -1}
 
 Start == [op |-> "none", mode |-> "", dup |-> FALSE, ranges |-> <<>>, ok |-> TRUE, exc |-> "",
-          cols |-> <<>>, cells |-> <<>>, rows |-> <<>>]
+          cols |-> <<>>, cells |-> <<>>, rows |-> <<>>, names |-> "tuple", both |-> FALSE, elem |-> "plain", ends |-> <<>>]
 Init == hist \in ConvChoices /\ last = Start
 E == hist.edges
 B == hist.bins
 Fresh == last.op = "none" /\ hist' = hist
 
 \* hist_to_graph(hist, get_coordinate=mode, field_names=...)
-ToGraph == Fresh /\ \E mode \in {"left", "right", "middle"} :
-             last' = [Start EXCEPT !.op = "to_graph", !.mode = mode, !.cols = HistToGraphOp(B, E, mode)]
+\* field_names as a tuple or as one comma separated string; any other get_coordinate raises LenaValueError
+ToGraph == Fresh /\ \E mode \in {"left", "right", "middle", "center"}, names \in {"tuple", "string"} :
+             last' = IF mode = "center"
+                     THEN [Start EXCEPT !.op = "to_graph", !.mode = mode, !.names = names, !.ok = FALSE, !.exc = "LenaValueError"]
+                     ELSE [Start EXCEPT !.op = "to_graph", !.mode = mode, !.names = names, !.cols = HistToGraphOp(B, E, mode)]
 \* list(iter_bins(hist.bins)): (index, content)
 IterBins == Fresh /\ LET it == IterBinsOp(B, Len(E)) IN
               last' = [Start EXCEPT !.op = "iter_bins",
@@ -61,14 +64,25 @@ RangeChoices == LET One(d) == {<<lo, Up(d, up)>> : lo \in RangeLows, up \in Rang
                 CASE Len(E) = 1 -> {<<r>> : r \in One(1)}
                   [] Len(E) = 2 -> {<<r, s>> : r \in One(1), s \in One(2)}
                   [] Len(E) = 3 -> {<<r, s, t>> : r \in One(1), s \in One(2), t \in One(3)}
-IterCells == Fresh /\ \E ranges \in RangeChoices :
-               LET r == IterCellsOp(B, E, ranges) IN
-               last' = [Start EXCEPT !.op = "iter_cells", !.ranges = ranges, !.ok = r.ok, !.exc = r.exc, !.cells = r.out]
+\* both: coord_ranges given as well - "If both coord_ranges and ranges are provided, LenaTypeError is raised"
+AllNone(ranges) == \A d \in 1..Len(ranges) : ranges[d][1] = None /\ ranges[d][2] = None
+IterCells == Fresh /\ \E ranges \in RangeChoices, both \in BOOLEAN :
+               /\ both => AllNone(ranges)
+               /\ LET r == IterCellsOp(B, E, ranges) IN
+                  last' = IF both THEN [Start EXCEPT !.op = "iter_cells", !.ranges = ranges, !.both = TRUE, !.ok = FALSE, !.exc = "LenaTypeError"]
+                          ELSE [Start EXCEPT !.op = "iter_cells", !.ranges = ranges, !.ok = r.ok, !.exc = r.exc, !.cells = r.out]
 \* hist1d_to_csv / hist2d_to_csv / ToCSV(duplicate_last_bin=dup): rows of numbers
-Csv == Fresh /\ Len(E) <= 2 /\ \E dup \in BOOLEAN :
-         last' = [Start EXCEPT !.op = "csv", !.dup = dup,
-                               !.rows = IF Len(E) = 1 THEN Csv1Op(B, E, dup) ELSE Csv2Op(B, E, dup)]
-Next == ToGraph \/ IterBins \/ IterBinsWithEdges \/ IterCells \/ Csv
+\* elem: "plain" (functions or element with defaults), "ends" (ToCSV(row_end=E, last_row_end=L): "Every row except the
+\* last one is ended with row_end and a newline.  The last row is ended with last_row_end"), "skip" (context.output.to_csv
+\* is False: "the value is skipped", i.e. passed on unchanged)
+Csv == Fresh /\ Len(E) <= 2 /\ \E dup \in BOOLEAN, elem \in {"plain", "ends", "skip"} :
+         LET rows == IF Len(E) = 1 THEN Csv1Op(B, E, dup) ELSE Csv2Op(B, E, dup) IN
+         last' = IF elem = "skip" THEN [Start EXCEPT !.op = "csv", !.dup = dup, !.elem = elem, !.exc = "unchanged"]
+                 ELSE [Start EXCEPT !.op = "csv", !.dup = dup, !.elem = elem, !.rows = rows,
+                                    !.ends = IF elem = "ends" THEN [k \in 1..Len(rows) |-> IF k < Len(rows) THEN "E" ELSE "L"] ELSE <<>>]
+\* ToCSV is "implemented only for 1- and 2-dimensional histograms": others pass unchanged
+Csv3d == Fresh /\ Len(E) = 3 /\ last' = [Start EXCEPT !.op = "csv", !.elem = "3d", !.exc = "unchanged"]
+Next == ToGraph \/ IterBins \/ IterBinsWithEdges \/ IterCells \/ Csv \/ Csv3d
 Spec == Init /\ [][Next]_vars
 
 (***************************************************************************)
@@ -76,7 +90,8 @@ Spec == Init /\ [][Next]_vars
 (***************************************************************************)
 CL == CellList(B, E)
 \* hist_to_graph yields one point per cell, in order, at its left/right/middle coordinate with that cell's value
-OnePointPerCell == last.op = "to_graph" =>
+BadModeRaises == last.op = "to_graph" => (last.ok <=> last.mode \in {"left", "right", "middle"}) /\ (~last.ok => last.exc = "LenaValueError")
+OnePointPerCell == (last.op = "to_graph" /\ last.ok) =>
   /\ Len(last.cols) = Len(E) + 1
   /\ \A k \in 1..Len(last.cols) : Len(last.cols[k]) = NCells(E)
   /\ \A j \in 1..NCells(E) :
@@ -105,11 +120,16 @@ IteratorsAgree ==
        IN /\ Len(last.cells) = Len(sel)
           /\ \A j \in 1..Len(sel) : last.cells[j] = [e |-> sel[j].e, v |-> sel[j].v, idx |-> sel[j].idx]
 \* iter_cells refuses index ranges outside 0..nbins
-RangesChecked == last.op = "iter_cells" =>
+BothRangesRaise == (last.op = "iter_cells" /\ last.both) => (~last.ok /\ last.exc = "LenaTypeError")
+RangesChecked == (last.op = "iter_cells" /\ ~last.both) =>
   (last.ok <=> \A d \in 1..Len(E) : /\ (last.ranges[d][1] # None => last.ranges[d][1] >= 0)
                                     /\ (last.ranges[d][2] # None => last.ranges[d][2] <= NB(E[d])))
 \* CSV: one row per cell (plus the rows duplicating the last edge when requested), lower edges and content
-CsvOneRowPerCell == last.op = "csv" =>
+CsvEnds == (last.op = "csv" /\ last.elem = "ends") =>
+  /\ Len(last.ends) = Len(last.rows)
+  /\ \A k \in 1..Len(last.ends) : last.ends[k] = (IF k = Len(last.ends) THEN "L" ELSE "E")
+CsvPasses == (last.op = "csv" /\ last.elem \in {"skip", "3d"}) => (last.rows = <<>> /\ last.exc = "unchanged")
+CsvOneRowPerCell == (last.op = "csv" /\ last.elem \in {"plain", "ends"}) =>
   /\ last.rows = CsvRef(B, E, last.dup)
   /\ ~last.dup =>
        /\ Len(last.rows) = NCells(E)
